@@ -5,6 +5,12 @@ import glob, json, os, re, subprocess, sys
 V = "/verif"
 extra = {"C03-1": ["C06", "C10"], "C05-2": ["C06", "C10"], "C06-2": ["C10", "C05"], "C09-2": ["C03", "C04"], "C03-2": ["C09"],
          "C12-2": ["C07"], "C07-2": ["C12"], "C13-1": ["C17"], "C17-1": ["C09"], "C19-2": ["C09"], "C09-1": ["C19"], "C20-1": ["C12"]}
+# round 2: neighbouring properties that the described breakage also touches
+extra.update({"C01-4": ["C08"], "C02-4": ["C08", "C11"], "C03-3": ["C08", "C09"], "C03-4": ["C10", "C05"], "C04-3": ["C08", "C09"], "C04-4": ["C09"],
+              "C05-3": ["C02", "C13"], "C05-4": ["C13"], "C06-3": ["C11"], "C06-4": ["C10", "C13"], "C07-4": ["C12", "C20"], "C08-3": ["C16", "C17"],
+              "C08-4": ["C09", "C11"], "C09-3": ["C08"], "C09-4": ["C08", "C11"], "C10-3": ["C05", "C13"], "C10-4": ["C05", "C13"], "C11-3": ["C06"],
+              "C11-4": ["C02", "C15"], "C12-4": ["C07"], "C13-3": ["C17"], "C13-4": ["C05"], "C14-4": ["C11"], "C15-3": ["C02"], "C16-3": ["C08", "C17"],
+              "C17-3": ["C09"], "C17-4": ["C06", "C16"], "C18-3": ["C11"], "C18-4": ["C08"], "C19-3": ["C05"], "C19-4": ["C14"], "C20-4": ["C11"]})
 only = sys.argv[1:]
 rows = []
 for d in sorted(glob.glob(V + "/seeded/C*-*")):
